@@ -11,10 +11,11 @@ func verifPrim(id string) Primitive { return verifPrims[nondetChoice(id, len(ver
 // verifPrim2: two kinds are enough where the kind only has to differ
 func verifPrim2(id string) Primitive { return verifPrims[4+nondetChoice(id, 2)] }
 
-// verifName: a one-letter attribute name (symbolic, a..z).
+// verifName: a one-letter attribute name (symbolic, a..z or A..Z).
 func verifName(id string) string {
 	s := nondetString(id, 1)
-	verifAssume(s[0] >= 'a' && s[0] <= 'z')
+	// letters of either case (two names may differ by case only)
+	verifAssume(s[0]|0x20 >= 'a' && s[0]|0x20 <= 'z')
 	return s
 }
 
@@ -328,7 +329,13 @@ func verifDupSubject() *UserTypeExpr {
 	if nondetBool("recursive") {
 		obj.Set("self", &AttributeExpr{Type: t})
 	}
-	switch nondetChoice("extra-members", 3) {
+	switch nondetChoice("extra-members", 4) {
+	case 3:
+		// one attribute object used for two members and as an array element
+		shared := &AttributeExpr{Type: String, Description: "shared", Validation: &ValidationExpr{Pattern: "s"}, Meta: MetaExpr{"ks": {"vs"}}}
+		obj.Set("s1", shared)
+		obj.Set("s2", shared)
+		obj.Set("sl", &AttributeExpr{Type: &Array{ElemType: shared}})
 	case 1:
 		// two result types whose identifiers differ only by structured-syntax suffix / case
 		mkRT := func(id, field string) *ResultTypeExpr {
